@@ -69,7 +69,37 @@ func selectProgs(cfg Cfg) []progenum.Prog {
 	case "C02":
 		forms = progenum.CatalogueForms()
 	}
+	if cfg.Prop == "C01" && (cfg.Tier == "thorough" || cfg.Only != "") {
+		// depth 3: every position nested in every position, for a representative set of forms
+		base := progenum.Positions()
+		for _, o := range base {
+			for _, i := range base {
+				if c, ok := progenum.Compose(o, i); ok {
+					poss = append(poss, c)
+				}
+			}
+		}
+	}
 	for _, pos := range poss {
+		if strings.Contains(pos.ID, "_x_") {
+			for _, fm := range progenum.RepresentativeForms() {
+				if pos.InMapLoop && fm.WritesM {
+					continue
+				}
+				if strings.Contains(pos.ID, "P15_closure_body") && strings.Contains(fm.Code, "return a, b, sv") {
+					continue
+				}
+				pr := progenum.Build(pos, fm)
+				if cfg.Only != "" && pr.Name != cfg.Only {
+					continue
+				}
+				if _, crashed := cfg.Exclude[pr.Name]; crashed {
+					continue
+				}
+				progs = append(progs, pr)
+			}
+			continue
+		}
 		if cfg.Tier == "quick" && !quickPos[pos.ID] && cfg.Only == "" {
 			continue
 		}
